@@ -81,24 +81,26 @@ func VerifC08GatherAll() {
 	}
 }
 
-// the derived key of two operations coincides (known finding G1)
+// known finding G1: two operations derive the same key and the clash is not resolved by explicit ids -
+// at least one of the two has no operationId, or one of their ids is itself the derived key of an id-less operation
 func vKeyCollision(ins []vOpIn) bool {
-	keys := map[string]bool{}
-	for _, in := range ins {
-		k := vDerivedKey(in)
-		if keys[k] {
-			return true
+	key := func(in vOpIn) string { return vOpKey(in.method, in.path) }
+	for i := range ins {
+		for j := 0; j < i; j++ {
+			if key(ins[i]) != key(ins[j]) {
+				continue
+			}
+			if ins[i].id == "" || ins[j].id == "" {
+				return true
+			}
+			for _, k := range ins {
+				if k.id == "" && (key(k) == ins[i].id || key(k) == ins[j].id) {
+					return true
+				}
+			}
 		}
-		keys[k] = true
 	}
 	return false
-}
-
-func vDerivedKey(in vOpIn) string {
-	if in.id != "" {
-		return "id:" + in.id
-	}
-	return "key:" + vOpKey(in.method, in.path)
 }
 
 // the key gatherOperations derives for an operation without operationId
